@@ -244,6 +244,30 @@ def case_job(job):
                         e["sq"] = snames.index(quals[0]) + 1 if quals[0] in snames else -1
             events.append(e)
     observe(doc, "open")
+    if idx % 4 == 1:
+        # a relative reference resolves from where its host cell is NOW: the first row of every host table is deleted, the surviving
+        # host cells move up by one (stored offsets unchanged); references whose host went away or whose target would leave the
+        # table are dropped from the plan
+        hosts = {tuple(p["host"]) for p in plan}
+        for h in hosts:
+            doc.sheets[h[0] - 1].tables[h[1] - 1].delete_row(1, start_row=0)
+        shifted = []
+        for p in plan:
+            if p["hr"] == 0:
+                continue
+            q2 = dict(p)
+            q2["hr"] = p["hr"] - 1
+            nrows = 3 if tuple(p["target"]) in hosts else 4
+            rows_ = []
+            if p["kind"] in ("cell",):
+                rows_ = [p["ends"][0]]
+            elif p["kind"] in ("rect", "rows"):
+                rows_ = [p["ends"][0], p["ends"][2]]
+            res = [off if ab_ else q2["hr"] + off for (off, ab_) in rows_]
+            if all(0 <= r < nrows for r in res) and res == sorted(res):
+                shifted.append(q2)
+        plan[:] = shifted
+        observe(doc, "host-moved")
     if rename:
         # Refs.tla Rename(x, nm): the names a reference is printed with are the names as they are NOW
         (x, nm) = rename
